@@ -71,6 +71,14 @@ def jobs(ctx):
         for b in (0, 1):
             out.append(J("VerifC10Fold", {"form": form, "bytes": b}, "fold form=%d bytes=%d" % (form, b), cost=5))
     out.append(J("VerifC10Fold", {"form": 0, "bytes": 0}, "fold twin", twin=True))
+    for form in range(3):
+        out.append(J("VerifC10FoldHigh", {"form": form}, "foldhigh form=%d" % form, cost=40))
+    out.append(J("VerifC10FoldHigh", {"form": 0}, "foldhigh twin", twin=True))
+    for nl in (1, 2, 3):
+        for form in range(7):
+            for b in (0, 1):
+                out.append(J("VerifC10Quant", {"nl": nl, "form": form, "bytes": b}, "quant nl=%d form=%d bytes=%d" % (nl, form, b), cost=3))
+    out.append(J("VerifC10Quant", {"nl": 2, "form": 3, "bytes": 0}, "quant twin", twin=True))
     return out
 
 
@@ -84,8 +92,9 @@ def describe(ctx):
         "bounds": {"escapes": "\\xHH both body bytes free (0..255); \\uHHHH \\UHHHHHHHH \\x{..} (1..9 digits; quick 1,2,6,9) \\u{..}/\\U{..} (1,5,9): all digits symbolic over the documented hex digits plus, one position at a time, one fully free byte; \\OOO; \\c for every byte c; standalone and inside [..]; rune and byte mode",
                    "charset kernels": "<=3 ranges (4 thorough) for newCharset/invert, (2,1)/(1,2) (thorough (2,2),(3,1)) for subtract/intersect; end points anywhere in [0,max]",
                    "classes": "[lo-hi] [lo-hic] [lo-hi-[c-d]] [lo-hic-d] and negations, end points any plain ASCII byte, probe over [0,0x10FFFF]",
-                   "fold": "(?i)c, (?i)[c..c+2], Fold option; c any ASCII letter"},
-        "outside": ["\\p{..} Unicode class contents", "patterns beyond these templates (nesting, quantifiers, alternation are exercised through C09's corpus only)", "non-ASCII class end points", "case folding of non-ASCII letters"],
+                   "fold": "(?i)c, (?i)[c..c+2], Fold option; c any ASCII letter; byte mode: (?i)[\\xHH], (?i)\\xHH, (?i)[\\xHH-\\xHH+1] for every byte >= 0x80",
+                   "quantifiers": "1..3 plain literal characters (symbolic, a..c) followed by * + ? {d} {d,} {d,e} {dd} with symbolic digits: AST shape and bounds"},
+        "outside": ["\\p{..} Unicode class contents", "patterns beyond these templates (nesting and alternation are exercised through C09's corpus only)", "non-ASCII class end points", "case folding of non-ASCII letters"],
         "trusted": ["go/ssa", "symgo executor", "z3", "harness oracles (verifRefHex, membership, documented class contents)"],
         "assumptions": ["'}' does not occur inside a \\x{..} body (shorter bodies are separate cases)"],
     }
